@@ -145,6 +145,100 @@ def payload_leg(ctx):
     return n
 
 
+def flaky_leg(ctx):
+    """Histories of an external resource appearing / disappearing between executions of  main() -> catch(probe(), ValueError, handler):
+    a failed call is never answered from the cache, whatever succeeded or was recovered before (explicit-state: the history of the resource
+    is the state; reference model below)."""
+    import itertools
+
+    from redun import task
+    from redun.scheduler import catch
+
+    from engine import evloop
+
+    state = {"present": True}
+    calls = []
+    n = 0
+    for probe_cached in (False, True):
+        for handler in ("escalate", "recover"):
+            for uncaught in (False, True):
+                if uncaught and handler == "recover":
+                    continue
+                REG = {}
+
+                def probe():
+                    calls.append("probe")
+                    if not state["present"]:
+                        raise ValueError("resource missing")
+                    return "ok"
+
+                def escalate(error):
+                    calls.append("escalate")
+                    raise RuntimeError(f"cannot recover from: {error}")
+
+                def recover(error):
+                    calls.append("recover")
+                    return "recovered"
+
+                def main(uncaught=uncaught, handler=handler):
+                    if uncaught:
+                        return [REG["probe"]()]
+                    return catch(REG["probe"](), ValueError, REG[handler])
+
+                REG["probe"] = task(name="probe", namespace="c12f", **({} if probe_cached else {"cache": False}))(probe)
+                REG["escalate"] = task(name="escalate", namespace="c12f")(escalate)
+                REG["recover"] = task(name="recover", namespace="c12f")(recover)
+                REG["main"] = task(name="main", namespace="c12f")(main)
+                for L in range(1, ctx.pick(4, 5) + 1):
+                    for hist in itertools.product((True, False), repeat=L):
+                        env = evloop.Env([])
+                        case = {"probe_cached": probe_cached, "handler": handler, "uncaught": uncaught, "resource_history": list(hist)}
+                        ever_ok = ever_recovered = False
+                        try:
+                            for i, present in enumerate(hist):
+                                state["present"] = present
+                                del calls[:]
+                                out = env.run(REG["main"]())
+                                n += 1
+                                made = list(calls)
+                                # reference model
+                                if probe_cached and ever_ok:
+                                    want, want_probe = ("ok", "ok"), False  # a SUCCESSFUL call may be replayed; that is not this property's business
+                                elif present:
+                                    want, want_probe = ("ok", "ok"), True
+                                elif uncaught:
+                                    want, want_probe = ("err", "ValueError", "resource missing"), True
+                                elif handler == "recover":
+                                    want, want_probe = ("ok", "recovered"), True
+                                else:
+                                    want, want_probe = ("err", "RuntimeError", "cannot recover from: resource missing"), True
+                                if uncaught and want[0] == "ok":
+                                    want = ("ok", ["ok"])
+                                if present or (probe_cached and ever_ok):
+                                    ever_ok = True
+                                got = tuple(out[:3]) if out[0] == "err" else (out[0], out[1])
+                                if handler == "recover" and not uncaught:
+                                    # a failure that WAS handled by catch may be cached together with its recovery (documented catch caching):
+                                    # once a recovery succeeded, replaying it is outside this property
+                                    if ever_recovered and got == ("ok", "recovered"):
+                                        continue
+                                    if got == ("ok", "recovered"):
+                                        ever_recovered = True
+                                where = f"execution {i + 1} of resource history {list(hist)} (True=present), probe cached={probe_cached}, handler={handler}, uncaught={uncaught}"
+                                if got != want:
+                                    kind = "failure-replayed-from-cache" if want_probe and "probe" not in made else "wrong-outcome"
+                                    ctx.violation(f"flaky:{kind}:handler={handler}:probe_cached={probe_cached}", case,
+                                                  f"{where}: got {got!r} after calls {made}, expected {want!r}")
+                                    break
+                                if want_probe and "probe" not in made:
+                                    ctx.violation(f"flaky:failed-call-not-executed-again:handler={handler}:probe_cached={probe_cached}", case,
+                                                  f"{where}: outcome {got!r} is right but probe() was not executed (calls {made})")
+                                    break
+                        finally:
+                            env.close()
+    return n
+
+
 def run(ctx):
     from engine import progs, seams
     from engine.common import check_harness_errors
@@ -158,16 +252,19 @@ def run(ctx):
     check_harness_errors(res)
     ctx.add_results(res)
     n_payload = payload_leg(ctx)
+    n_flaky = flaky_leg(ctx)
     states = set().union(*[r["states"] for r in res])
     execs = sum(r["stats"]["executions"] for r in res)
     return {"coverage": {
         "states": len(states), "transitions": sum(r["ntrans"] for r in res), "traces_validated_against_impl": execs,
         "failing_programs": len(failing), "failing_executions_checked": sum(r["n_fail"] for r in res),
-        "re_executions_observed": sum(r["reexec"] for r in res), "payload_runs": n_payload, "exhaustive": True,
+        "re_executions_observed": sum(r["reexec"] for r in res), "payload_runs": n_payload, "flaky_history_runs": n_flaky, "exhaustive": True,
         "rule": f"every generated program of size <= 4 that can fail (error-raising leaves at any depth, inside containers and control "
         "forms, catch with non-matching class, recover that re-raises), executed twice on one backend under the default schedule (size <= 3: every "
         "schedule within the deviation bound); oracle: outcome is admissible, root and failing job with its whole ancestor chain are recorded with "
         "an ErrorValue result, and the failing task function runs again in the second execution; plus errors carrying each of 6 payload kinds "
-        "(serializable, and unserializable in every way pickle refuses: AttributeError/PicklingError/TypeError) raised at depth 0-2",
+        "(serializable, and unserializable in every way pickle refuses: AttributeError/PicklingError/TypeError) raised at depth 0-2; plus every history of <=4 (thorough 5) executions in which an external resource is present / missing, for "
+        "catch(probe(), ValueError, handler) with a handler that recovers or re-raises, probe cached or not, and for an uncaught probe: outcome and "
+        "re-execution of the failed call per a reference model",
         "samples": [repr(p) for p in failing[:3]],
     }, "assumptions": ["see C01 for the program family and reference interpreter"]}
